@@ -339,6 +339,46 @@ fn main() {
         }
     }
 
+    // ---------------------------------------------------------------- C04: the parameter case configured in the typegen section of tauri.conf.json (what the build script reads)
+    for mode in ["none", "zod"] {
+        rep.case("configured_parameter_case_reaches_the_cli", &format!("--validation {} plugins.typegen.defaultParameterCase = snake_case in tauri.conf.json, no --config", mode), &|| {
+            let p = project(&root, &format!("cfgsec_{}", mode), None);
+            let pp = p.join("src-tauri"); let gp = p.join("out");
+            fs::write(pp.join("src/lib.rs"), LIB_EDIT).map_err(|e| e.to_string())?;
+            fs::write(pp.join("tauri.conf.json"), format!("{{ \"productName\": \"demo\", \"plugins\": {{ \"typegen\": {{ \"projectPath\": {:?}, \"outputPath\": {:?}, \"validationLibrary\": {:?}, \"defaultParameterCase\": \"snake_case\" }} }} }}\n", pp.to_string_lossy(), gp.to_string_lossy(), mode)).map_err(|e| e.to_string())?;
+            let (code, text) = run(&cli, &pp, &["generate", "--force"])?;
+            if code != 0 { return Err(format!("generate ended with status {}: {}", code, text.chars().take(300).collect::<String>())); }
+            let t = fs::read_to_string(gp.join("types.ts")).map_err(|e| format!("no types.ts in the output path of the section: {}", e))?;
+            let blocks: String = t.split("\n\n").filter(|b| b.contains("SaveParams")).collect::<Vec<_>>().join("\n");
+            if blocks.is_empty() { return Err("UNPARSED: no declaration of SaveParams".into()); }
+            for k in ["user_name", "retry_count", "on_progress"] { if !blocks.contains(k) { return Err(format!("SaveParams has no key `{}`: the typegen section sets defaultParameterCase = snake_case", k)); } }
+            Ok("ok".into())
+        });
+    }
+
+    // ---------------------------------------------------------------- C10 / C13: a run of the library entry point keeps the cache in step with the files it wrote
+    rep.case("library_run_refreshes_the_cache", "command line (zod), generate_from_config (none) into the same directory, command line (zod) again", &|| {
+        let p = project(&root, "libcache", Some(conf_plain));
+        let pp = p.join("src-tauri"); let gp = p.join("out");
+        fs::write(pp.join("src/lib.rs"), LIB_EDIT).map_err(|e| e.to_string())?;
+        let cli_zod = |label: &str| -> Result<(), String> {
+            let (code, text) = run(&cli, &p, &["generate", "--project-path", pp.to_str().unwrap(), "--output-path", gp.to_str().unwrap(), "--validation", "zod"])?;
+            if code != 0 { return Err(format!("the {} command-line run ended with status {}: {}", label, code, text.chars().take(200).collect::<String>())); }
+            Ok(())
+        };
+        cli_zod("first")?;
+        let mut cfg = tauri_typegen::GenerateConfig::default();
+        cfg.project_path = pp.to_string_lossy().to_string();
+        cfg.output_path = gp.to_string_lossy().to_string();
+        cfg.validation_library = "none".to_string();
+        tauri_typegen::generate_from_config(&cfg).map_err(|e| format!("generate_from_config returned Err: {}", e))?;
+        if fs::read_to_string(gp.join("types.ts")).unwrap_or_default().contains("z.object(") { return Err("UNPARSED: the library run with validation none left Zod schemas".into()); }
+        cli_zod("second")?;
+        let t = fs::read_to_string(gp.join("types.ts")).map_err(|e| e.to_string())?;
+        if !t.contains("z.object(") { return Err("after the second command-line run in Zod mode types.ts has no schema: the run took the files of the library run (validation none) for its own, because the cache still described the first run".into()); }
+        Ok("ok".into())
+    });
+
     // ---------------------------------------------------------------- C02: index.ts re-exports the files of the same run, not what an earlier run left behind
     for mode in ["none", "zod"] {
         rep.case("index_reexports_the_files_of_the_same_run", &format!("--validation {} second run after the only emit was removed", mode), &|| {
